@@ -32,7 +32,7 @@ class C07(Prop):
         cases = []
         while len(cases) < n:
             sys = gs.gen_system(rng, mrange=(1, 4), nrange=(1, 6), finite_ub=True, Kkind=rng.choice(["none", "scalar", "vector"]))
-            tk = rng.choice(["inside", "inside", "outside", "face", "far"])
+            tk = rng.choice(["inside", "inside", "outside", "face", "far", "below"])     # below: one receptor's target under its (transformed) baseline
             got = gs.gen_target_regime(rng, sys, tk)
             if got is None:
                 continue
